@@ -157,6 +157,10 @@ fn gen(seed: u64, idx: u64, t: Tier) -> J {
 	set_param(&mut sc, "shape", json!(shape.name()));
 	set_param(&mut sc, "pattern", json!(r.next() >> 1));
 	set_param(&mut sc, "far", json!(depth));
+	if to != Fmt::Toml && r.chance(1, 2) {
+		// The translator is not fresh: an earlier small input (format detected) came first.
+		set_param(&mut sc, "history", json!(r.pick(&[Fmt::Yaml, Fmt::Yaml, Fmt::Json, Fmt::Toml, Fmt::Msgpack]).name()));
+	}
 	sc.to_json()
 }
 
@@ -222,6 +226,27 @@ fn eval(case: &J) -> Eval {
 						ev.violate(format!("mode-dependent/{tag}"), format!("depth {d}: {n0} {} but {name} {} ({:?})", if *ok0 { "accepts" } else { "rejects" }, if v.is_ok() { "accepts" } else { "rejects" }, v.text()));
 					}
 				}
+			}
+		}
+		if let (Some((n0, ok0)), Some(h)) = (&first, sc.param_s("history").and_then(Fmt::parse)) {
+			// Same document, same translator - but after another input whose format was detected.
+			let prior: &[u8] = match h {
+				Fmt::Json => b"{\"h\": 1}",
+				Fmt::Yaml => b"h: 1\n",
+				Fmt::Toml => b"h = 1\n",
+				Fmt::Msgpack => b"\x81\xa1h\x01",
+			};
+			let mut s = sc.clone();
+			s.calls[0].bytes = bytes.clone();
+			s.calls[0].reader = false;
+			s.calls[0].sched = Sched::whole();
+			s.calls.insert(0, Call::slice(prior.to_vec(), None));
+			let o = exec::run_with(&s, exec::Opts { lean: true, ..Default::default() });
+			global_invariants(&mut ev, &s, &o, &format!("depth {d} after a detected {} input", h.name()));
+			add_io_counters(&mut ev, &o);
+			ev.count("with_history", 1);
+			if o.calls.len() == 2 && o.verdict(0).is_ok() && o.verdict(1).code() != 2 && o.verdict(1).is_ok() != *ok0 {
+				ev.violate(format!("history-dependent/{tag}/after-{}", h.name()), format!("depth {d}: {n0} on a fresh translator {} but the same document as second input (after a detected {} input) {} ({:?})", if *ok0 { "accepts" } else { "rejects" }, h.name(), if o.verdict(1).is_ok() { "accepts" } else { "rejects" }, o.verdict(1).text()));
 			}
 		}
 		if let Some((_, ok)) = first {
